@@ -1,17 +1,12 @@
 (* C15 - the Mechanism (Reuse.v) refines the Spec (ReuseSpec.v) at every snippet of every history outside the named
-   classes; the classes are inhabited.  See ReuseProofs.v for the other theorems. *)
+   classes; the class is inhabited.  See ReuseProofs.v for the other theorems. *)
 From Coq Require Import List Bool Arith ZArith String Lia.
 From YV Require Import Show ReplLang Reuse ReuseSpec ReuseProofs.
 Import ListNotations.
 Set Default Timeout 120.
 
-(* the Spec sees a fiber of a finished run as finished *)
-Definition unmark (v : option gval) : option gval :=
-  match v with Some (VFiber _) => Some (VFiber false) | _ => v end.
-
 Record Rel (k : kstate) (s : sstate) (c : carried) : Prop := mkRel {
-  r_glob : s_globals s = gmap unmark (c_globals c);
-  r_wait : k_waiting k = false -> g_fib (c_globals c) <> Some (VFiber true);
+  r_glob : s_globals s = c_globals c;
   r_imp : forall m, s_imported s m = match mget m (c_mods c) with Some true => true | _ => false end;
   r_poison : forall m, mget m (c_mods c) = Some false -> k_poisoned k m = true;
   r_conv : forall m, k_poisoned k m = true -> mget m (c_mods c) = Some false;
@@ -44,22 +39,21 @@ Ltac nf := lazy -[show_Z show_nat Z.add String.append name_error exc_msg circula
                  mod_alias mod_v range_hit range_full].
 Ltac nf_in H := lazy -[show_Z show_nat Z.add String.append name_error exc_msg circular_msg missing_msg gname_s fname_s cname_s
                  mod_alias mod_v range_hit range_full] in H.
-Ltac dv x := destruct x as [[?|?|?|?|[]|?]|].
+Ltac dv x := destruct x as [[?|?|?|?| |?]|].
 
 (* the registry, the poison set and the waiting flag are unchanged; globals changed the same way on both sides *)
-Ltac fin_same Hw Hi Hp Hc Hu Hf Hg :=
-  split; [constructor; [reflexivity | exact Hw | exact Hi | exact Hp | exact Hc | exact Hu | exact Hf | exact Hg]
+Ltac fin_same Hi Hp Hc Hu Hf Hg :=
+  split; [constructor; [reflexivity | exact Hi | exact Hp | exact Hc | exact Hu | exact Hf | exact Hg]
          | split; [exact I | intros _; reflexivity]].
 
 Section Plain.
-Variables (kp : modk -> bool) (kw : bool) (si : modk -> bool) (he : bool) (fibs : list fiber) (cd : bool)
+Variables (kp : modk -> bool) (si : modk -> bool) (he : bool) (fibs : list fiber) (cd : bool)
           (mods : modreg) (ch : nat) (rg : list nat).
 Variables a0 a1 a2 a3 a4 a5 a6 a7 a8 a9 a10 a11 a12 : option gval.
 Let gl := mkG a0 a1 a2 a3 a4 a5 a6 a7 a8 a9 a10 a11 a12.
-Let K := mkK kp kw.
-Let S0 := mkS (gmap unmark gl) si.
+Let K := mkK kp.
+Let S0 := mkS gl si.
 Let C0 := mkC he fibs cd mods ch rg gl.
-Hypothesis Hw : kw = false -> a7 <> Some (VFiber true).
 Hypothesis Hi : forall m, si m = match mget m mods with Some true => true | _ => false end.
 Hypothesis Hp : forall m, mget m mods = Some false -> kp m = true.
 Hypothesis Hc : forall m, kp m = true -> mget m mods = Some false.
@@ -68,15 +62,15 @@ Hypothesis Hf : r_bad mods <> Some true /\ r_nest mods <> Some true.
 Hypothesis Hg : r_good mods <> Some false.
 
 Lemma refine_var : forall g z, step_goal K S0 C0 (SnVar g z).
-Proof. intros g z; unfold step_goal, K, S0, C0, gl; destruct g; nf; fin_same Hw Hi Hp Hc Hu Hf Hg. Qed.
+Proof. intros g z; unfold step_goal, K, S0, C0, gl; destruct g; nf; fin_same Hi Hp Hc Hu Hf Hg. Qed.
 
 Lemma refine_print : forall g, step_goal K S0 C0 (SnPrint g).
 Proof.
-  intros g; unfold step_goal, K, S0, C0, gl; destruct g; [dv a0 | dv a1]; nf; fin_same Hw Hi Hp Hc Hu Hf Hg.
+  intros g; unfold step_goal, K, S0, C0, gl; destruct g; [dv a0 | dv a1]; nf; fin_same Hi Hp Hc Hu Hf Hg.
 Qed.
 
 Ltac start := unfold step_goal, K, S0, C0, gl.
-Ltac fin := fin_same Hw Hi Hp Hc Hu Hf Hg.
+Ltac fin := fin_same Hi Hp Hc Hu Hf Hg.
 
 Lemma refine_fn : forall f g, step_goal K S0 C0 (SnFn f g).
 Proof. intros f g; start; destruct f; nf; fin. Qed.
@@ -84,10 +78,10 @@ Proof. intros f g; start; destruct f; nf; fin. Qed.
 Lemma refine_call : forall f, step_goal K S0 C0 (SnCall f).
 Proof.
   intros f; start; destruct f.
-  - destruct a2 as [[?|g|?|?|[]|?]|].
+  - destruct a2 as [[?|g|?|?| |?]|].
     2: { destruct g; [dv a0 | dv a1]; nf; fin. }
     all: nf; fin.
-  - destruct a3 as [[?|g|?|?|[]|?]|].
+  - destruct a3 as [[?|g|?|?| |?]|].
     2: { destruct g; [dv a0 | dv a1]; nf; fin. }
     all: nf; fin.
 Qed.
@@ -124,43 +118,25 @@ Lemma refine_usemod : forall m, step_goal K S0 C0 (SnUseMod m).
 Proof. intros m; start; destruct m; [dv a8 | dv a9 | dv a10 | dv a11 | dv a12]; nf; fin. Qed.
 
 (* uncaught errors: the definitions completed before the failure persist on both sides, nothing else *)
-Lemma refine_throw : forall w d, w <> WFiberWait -> step_goal K S0 C0 (SnThrow w d).
+Lemma refine_throw : forall w d, step_goal K S0 C0 (SnThrow w d).
 Proof.
-  intros w d Hn; start.
-  destruct d as [[[] z]|]; destruct w as [|[]| | | | | | | | | | | ]; try (exfalso; apply Hn; reflexivity); nf; fin.
-Qed.
-
-(* the waiting fiber: M leaves fw "called", the Spec sees a finished fiber; from here on the flag k_waiting is set *)
-Lemma refine_fiberwait : forall d, step_goal K S0 C0 (SnThrow WFiberWait d).
-Proof.
-  intros d; start. destruct d as [[[] z]|]; nf;
-    (split; [constructor; [ nf; f_equal; try reflexivity;
-                              match goal with |- context [match ?a with _ => _ end] => is_var a; destruct a as [[| | | |[]|]|] end;
-                              reflexivity
-                          | intros Hx; discriminate Hx | exact Hi | exact Hp | exact Hc | exact Hu | exact Hf | exact Hg]
-            | split; [exact I | intros _; reflexivity]]).
+  intros w d; start.
+  destruct d as [[[] z]|]; destruct w as [|[]| | | | | | | | | | | ]; nf; fin.
 Qed.
 
 Lemma refine_usefiber : step_goal K S0 C0 SnUseFiber.
-Proof.
-  start. destruct a7 as [[?|?|?|?|[]|?]|]; nf; try fin.
-  (* fw was left called: only inside the named class *)
-  split; [constructor; [reflexivity | exact Hw | exact Hi | exact Hp | exact Hc | exact Hu | exact Hf | exact Hg]|].
-  split; [exact I|].
-  destruct kw; [intros Hx; discriminate Hx|]. exfalso; apply Hw; reflexivity.
-Qed.
+Proof. start; dv a7; nf; fin. Qed.
 End Plain.
 
 Section Imports.
-Variables (kp : modk -> bool) (kw : bool) (si : modk -> bool) (he : bool) (fibs : list fiber) (cd : bool)
+Variables (kp : modk -> bool) (si : modk -> bool) (he : bool) (fibs : list fiber) (cd : bool)
           (mg mb mn : option bool) (ch : nat) (rg : list nat).
 Variables a0 a1 a2 a3 a4 a5 a6 a7 a8 a9 a10 a11 a12 : option gval.
 Let gl := mkG a0 a1 a2 a3 a4 a5 a6 a7 a8 a9 a10 a11 a12.
 Let mods := mkR mg mb None None mn.
-Let K := mkK kp kw.
-Let S0 := mkS (gmap unmark gl) si.
+Let K := mkK kp.
+Let S0 := mkS gl si.
 Let C0 := mkC he fibs cd mods ch rg gl.
-Hypothesis Hw : kw = false -> a7 <> Some (VFiber true).
 Hypothesis Hi : forall m, si m = match mget m mods with Some true => true | _ => false end.
 Hypothesis Hp : forall m, mget m mods = Some false -> kp m = true.
 Hypothesis Hc : forall m, kp m = true -> mget m mods = Some false.
@@ -177,7 +153,7 @@ Ltac conv_tac := let m := fresh "m" in let H := fresh "H" in intros m; destruct 
         | exact (Hc MNest H) | discriminate (Hc MGood H) | discriminate (Hc MThrow H) | discriminate (Hc MNest H) ].
 Ltac fin_rel :=
   constructor;
-  [ nf; reflexivity | exact Hw | imp_tac | poison_tac | conv_tac | split; reflexivity
+  [ nf; reflexivity | imp_tac | poison_tac | conv_tac | split; reflexivity
   | nf; split; first [ exact (proj1 Hf) | exact (proj2 Hf) | discriminate ]
   | nf; first [ exact Hg | discriminate ] ].
 Ltac fin_eq := split; [fin_rel | split; [exact I | intros _; reflexivity]].
@@ -234,9 +210,9 @@ End Imports.
 (* ---------- every snippet ---------- *)
 Theorem snippet_refines : forall k s c sn, Rel k s c -> step_goal k s c sn.
 Proof.
-  intros [kp kw] [sg si] [he fibs cd [mg mb mm ms mn] ch rg [a0 a1 a2 a3 a4 a5 a6 a7 a8 a9 a10 a11 a12]] sn
-         [Hgl Hw Hi Hp Hc [Hu1 Hu2] Hf Hg].
-  cbn in Hgl, Hw, Hi, Hp, Hc, Hu1, Hu2, Hf, Hg. subst sg mm ms.
+  intros [kp] [sg si] [he fibs cd [mg mb mm ms mn] ch rg [a0 a1 a2 a3 a4 a5 a6 a7 a8 a9 a10 a11 a12]] sn
+         [Hgl Hi Hp Hc [Hu1 Hu2] Hf Hg].
+  cbn in Hgl, Hi, Hp, Hc, Hu1, Hu2, Hf, Hg. subst sg mm ms.
   destruct sn as [g z|g|f g|f|cl z|cl|pre|w d|  |  |  |  |k|  |  |m|m| ].
   - apply refine_var; auto.
   - apply refine_print; auto.
@@ -245,8 +221,7 @@ Proof.
   - apply refine_class; auto.
   - apply refine_use; auto.
   - apply refine_syntax; auto.
-  - assert (D : w = WFiberWait \/ w <> WFiberWait) by (destruct w; (left; reflexivity) || (right; discriminate)).
-    destruct D as [-> | D]; [apply refine_fiberwait | apply refine_throw]; auto.
+  - apply refine_throw; auto.
   - apply refine_tryfin; auto.
   - apply refine_trycatch; auto.
   - apply refine_fiberok; auto.
@@ -316,19 +291,15 @@ Proof.
   intros h; apply run_leaves_clean; eapply agree_settled; apply failed_snippet_only_definitions.
 Qed.
 
-(* the named classes are inhabited: the faithful model does NOT refine the Spec there *)
+(* the named class is inhabited: the faithful model does NOT refine the Spec there *)
 Theorem failed_import_refuted :
   exists h, in_known_class h = true /\ map fst (eval_mech h) <> eval_spec h.
 Proof. exists [SnImport MThrow; SnImport MThrow]; split; [reflexivity | vm_compute; discriminate]. Qed.
 
-Theorem waiting_fiber_refuted :
-  exists h, in_known_class h = true /\ map fst (eval_mech h) <> eval_spec h.
-Proof. exists [SnThrow WFiberWait None; SnUseFiber]; split; [reflexivity | vm_compute; discriminate]. Qed.
-
 (* hypotheses are satisfiable by a non-trivial history: a failure of each family followed by the same construct *)
 Example outside_example :
   in_known_class [SnVar I0 5%Z; SnImport MGood; SnThrow WTryFinally (Some (I1, 2%Z)); SnTryFin; SnThrow WClassDef None;
-                  SnClass I0 7%Z; SnUse I0; SnImport MThrow; SnImport MGood; SnThrow WCaptureFiber None; SnUseLeak;
+                  SnClass I0 7%Z; SnUse I0; SnImport MThrow; SnImport MGood; SnThrow WCaptureFiber None; SnUseLeak; SnThrow WFiberWait None; SnUseFiber;
                   SnReset; SnImport MThrow] = false.
 Proof. reflexivity. Qed.
 
